@@ -230,7 +230,8 @@ def build(S, tier):
     # ------------------------------------------------------------------ the candidate list stays "the non-negative labels" when atoms come and go
     # (the selection clauses above start from a freshly constructed move; an exchange notifies the move of new / removed atoms)
     from contracts import C05
-    n0 = len(S.obligations)
+    n0, u0 = len(S.obligations), len(S.unsupported)
     C05.build(S, tier, parts=("labels",))
-    S.prove("candidates_after_atom_count_changes#cover.label_contract_of_on_atoms_changed_rechecked", len(S.obligations) - n0 >= 20, kind="cover", why=str(len(S.obligations) - n0))
+    if len(S.unsupported) == u0:        # a part of it out of reach is reported as such, not as a missing cover
+        S.prove("candidates_after_atom_count_changes#cover.label_contract_of_on_atoms_changed_rechecked", len(S.obligations) - n0 >= 20, kind="cover", why=str(len(S.obligations) - n0))
     return meta
